@@ -861,3 +861,110 @@ def eval_test(expr, bindings, fold=None):
         except Exception:
             pass
     raise Unknown(key)
+
+
+# ---------------------------------------------------------------------------
+# path-sensitive value extraction over a block of statements
+# ---------------------------------------------------------------------------
+
+class Outcome:
+    """One way a sink statement is reached: ``conds`` = canonical texts of the conditions that hold on the path (negated
+    tests are stored in negated canonical form), ``value`` = the sink's value expression with temporaries expanded and
+    conditional expressions resolved, ``stmt`` = the sink statement, ``cond_nodes`` = the condition expressions."""
+    def __init__(self, conds, value, stmt, cond_nodes, target=None):
+        self.conds = conds
+        self.value = value
+        self.stmt = stmt
+        self.cond_nodes = cond_nodes
+        self.target = target
+
+    @property
+    def vtext(self):
+        return ' '.join(ast.unparse(self.value).split()) if self.value is not None else None
+
+    def __repr__(self):
+        return f'<Outcome {self.conds} -> {self.vtext}>'
+
+
+def _split_ifexp(e, conds, nodes):
+    """[(conds, nodes, expr-without-top-level-IfExp)]"""
+    if isinstance(e, ast.IfExp):
+        t = canon(e.test)
+        out = []
+        out += _split_ifexp(e.body, conds + [ctext(t)], nodes + [t])
+        nt = negate(t)
+        out += _split_ifexp(e.orelse, conds + [ctext(nt)], nodes + [nt])
+        return out
+    return [(conds, nodes, e)]
+
+
+def branch_values(stmts, sink, env0=None, max_paths=2000, follow_loops=False, opaque=()):
+    """Enumerate the acyclic paths through ``stmts`` (if / elif / else, guard clauses with continue / return / raise /
+    break) and return an Outcome for every execution of a sink statement. ``sink(stmt)`` returns the value expression of
+    a sink statement (and optionally a (target, value) pair) or None. Local temporaries are propagated along each path.
+    Loops / try / with blocks are entered as straight-line code when ``follow_loops`` is set, otherwise skipped
+    (assignments inside them invalidate the temporaries they set)."""
+    outcomes = []
+    count = [0]
+
+    def kill(env, node):
+        names = {n.id for n in ast.walk(node) if isinstance(n, ast.Name) and isinstance(n.ctx, ast.Store)}
+        return {k: v for k, v in env.items() if k not in names}
+
+    def run(block, env, conds, nodes):
+        count[0] += 1
+        if count[0] > max_paths:
+            raise Unknown('too many paths')
+        for i, st in enumerate(block):
+            rest = block[i + 1:]
+            r = sink(st)
+            if r is not None:
+                target, value = r if isinstance(r, tuple) else (None, r)
+                v = expand(value, env) if value is not None else None
+                t = expand(target, env) if target is not None else None
+                if v is not None:
+                    for c2, n2, e2 in _split_ifexp(v, list(conds), list(nodes)):
+                        outcomes.append(Outcome(c2, canon(e2), st, n2, t))
+                else:
+                    outcomes.append(Outcome(list(conds), None, st, list(nodes), t))
+            if isinstance(st, ast.Assign) and len(st.targets) == 1 and isinstance(st.targets[0], ast.Name):
+                env = dict(env)
+                if st.targets[0].id in opaque:
+                    env.pop(st.targets[0].id, None)
+                else:
+                    env[st.targets[0].id] = expand(st.value, env)
+                continue
+            if isinstance(st, ast.AnnAssign) and isinstance(st.target, ast.Name) and st.value is not None:
+                env = dict(env)
+                env[st.target.id] = expand(st.value, env)
+                continue
+            if isinstance(st, (ast.Assign, ast.AugAssign, ast.AnnAssign)):
+                env = kill(env, st)
+                continue
+            if isinstance(st, ast.If):
+                t = canon(expand(st.test, env))
+                nt = negate(t)
+                run(list(st.body) + rest, env, conds + [ctext(t)], nodes + [t])
+                run(list(st.orelse) + rest, env, conds + [ctext(nt)], nodes + [nt])
+                return
+            if isinstance(st, (ast.Return, ast.Raise, ast.Continue, ast.Break)):
+                return
+            if isinstance(st, (ast.For, ast.While, ast.With, ast.Try, ast.AsyncFor, ast.AsyncWith)):
+                if follow_loops:
+                    inner = list(st.body)
+                    if isinstance(st, ast.Try):
+                        inner = list(st.body) + list(st.orelse) + list(st.finalbody)
+                    e2 = kill(env, st) if isinstance(st, (ast.For, ast.While)) else env
+                    run(inner + rest, e2, conds, nodes)
+                    if isinstance(st, (ast.For, ast.While)):
+                        run(rest, e2, conds, nodes)
+                    return
+                env = kill(env, st)
+                continue
+            if isinstance(st, ast.Assert):
+                t = canon(expand(st.test, env))
+                conds = conds + [ctext(t)]
+                nodes = nodes + [t]
+                continue
+    run(list(stmts), dict(env0 or {}), [], [])
+    return outcomes
